@@ -188,13 +188,15 @@ Theorem C08_idempotent_non_relative : forall u, uri_pct_wf u = true -> relative_
 Proof. exact normalize_idem. Qed.
 Print Assumptions C08_idempotent_non_relative.
 
-(* and, relative or not, whenever the first result has no dot segment left.
-   _partial: relative-path references whose normal form keeps a leading ".." run ("../a") or an
-   essential leading "." ("./a:b") are idempotent too but not covered by this hypothesis. *)
+(* and, relative or not, whenever the path of the first result is stable (NormalizeProofs.stable_path):
+   no dot segment left, or -- relative-path references only -- a leading ".." run followed by none
+   ("../../a"), or a leading "." in front of a first segment containing ':' followed by none ("./a:b").
+   _partial: that every other result path (the stale "." of "./b:c/.." and "./b:c/../x") is NOT a fixed
+   point, i.e. that the hypothesis is also necessary, is not proved. *)
 Theorem C08_idempotent_partial : forall u, uri_pct_wf u = true ->
-  Forall (fun s => seg_dot s = false /\ seg_dotdot s = false) (pathSegs (normalize 63 u)) ->
+  stable_path (relative_ref u) (pathSegs (normalize 63 u)) = true ->
   components (normalize 63 (normalize 63 u)) = components (normalize 63 u).
-Proof. exact normalize_idem_when_no_dots. Qed.
+Proof. exact normalize_idem_stable. Qed.
 Print Assumptions C08_idempotent_partial.
 
 (* ---- the hypotheses are satisfiable: "hTTp://u%41@H%2f:8/a/./%7e/../b?q%3d#f" ------------- *)
@@ -204,6 +206,19 @@ Example C08_nonvacuous :
                 = (Some [104;116;116;112], Some [117;65], Some [104;37;50;70], None, None, None, Some [56],
                    [[97];[98]], false, Some [113;37;51;68], Some [102]).   (* http://uA@h%2F:8/a/b?q%3D#f *)
 Proof. exact wit_rich_ok. Qed.
+
+(* relative-path references the hypothesis of C08_idempotent_partial admits ("../../a/./b", "./a:b/c/..")
+   and the two it must not admit ("./b:c/..", "./b:c/../x") *)
+Example C08_stable_examples :
+  (exists u, parse [46;46;47;46;46;47;97;47;46;47;98] = POk u /\ relative_ref u = true
+             /\ pathSegs (normalize 63 u) = [[46;46];[46;46];[97];[98]]
+             /\ stable_path true (pathSegs (normalize 63 u)) = true)
+  /\ (exists u, parse [46;47;97;58;98;47;99;47;46;46] = POk u /\ relative_ref u = true
+             /\ pathSegs (normalize 63 u) = [[46];[97;58;98];[]]
+             /\ stable_path true (pathSegs (normalize 63 u)) = true)
+  /\ (exists u, parse wit_cancel = POk u /\ stable_path (relative_ref u) (pathSegs (normalize 63 u)) = false)
+  /\ (exists u, parse wit_stale_dot = POk u /\ stable_path (relative_ref u) (pathSegs (normalize 63 u)) = false).
+Proof. repeat split; eexists; (split; [vm_compute; reflexivity|]); repeat split; vm_compute; reflexivity. Qed.
 
 (* ---- remarks (model facts, checked against the C code by the C08 correspondence) ----------
    * "normal form implies mask 0" is not claimed and is false: NormalizeProofs.mask_query_not_exact
